@@ -106,6 +106,18 @@ def real(case):
     return out
 
 
+CLIQUE_LENGTHS = {}
+
+
+def clique_optimum(lengths):
+    srt = sorted(lengths, reverse=True)
+    return srt[0] - sum(k * L for k, L in enumerate(srt) if k >= 1)
+
+
+def clique_score(lengths, levels):
+    return sum(L if lv == 0 else -lv * L for L, lv in zip(lengths, levels))
+
+
 def build_inputs(ctx):
     rng = ctx.rng
     inputs = [("hand", c) for c in g1.handmade()] + [("corpus:" + n, c) for n, c in g1.corpus()]
@@ -127,6 +139,13 @@ def build_inputs(ctx):
         sizes = component_sizes(pairs)
         if sizes is not None and max(sizes or [0]) <= ctx.pick(8, 9):
             out.append((tag, (seq, pairs), sizes))
+    # large groups of mutually crossing stems of distinct lengths (10-12 levels needed): the exact optimum of a
+    # complete conflict graph has a closed form (longest stem on level 0, next on level 1, ...), so these are judged
+    # without the model's branch and bound
+    for k in ([10, 11] if ctx.quick else [10, 11, 12, 12]):
+        lengths = rng.sample(range(1, 3 * k), k)
+        out.append(("clique%d" % k, g1.clique(lengths, gap=rng.randint(0, 1), rng=rng), [k]))
+        CLIQUE_LENGTHS[tuple(out[-1][1][1])] = lengths
     return out, nmax
 
 
@@ -171,6 +190,8 @@ def run(ctx):
         if "-" in lv.split(","):
             res.fail("spec", "C02:%s:stem-without-bracket" % k, {"seq": seq, "pairs": pairs}, "levels=%r" % lv)
             continue
+        if tag.startswith("clique"):
+            continue        # judged by the closed form below (the model's exact optimiser is exponential here)
         reqs.append(["ss.check_levels", seq, g1.pstr(pairs), lv or "-"]); idx.append((ci, k, lv))
     resp = ctx.driver.ask(reqs)
     score = {}
@@ -190,6 +211,18 @@ def run(ctx):
                 continue
             if o[k][0] != "ok":
                 res.fail("spec", "C02:%s:raises:%s" % (k, o[k][1]), inp, "raised %s" % o[k][1])
+                continue
+            if tag.startswith("clique"):
+                lens = CLIQUE_LENGTHS[tuple(pairs)]
+                lv = levels.get((ci, k))
+                if lv is None or "-" in lv.split(","):
+                    continue
+                lvs = [int(x) for x in lv.split(",")]
+                if len(set(lvs)) != len(lvs):
+                    res.fail("spec", "C02:%s:improper" % k, inp, "mutually crossing stems share a level in %r" % o[k][1])
+                elif clique_score(lens, lvs) != clique_optimum(lens):
+                    res.fail("spec", "C02:%s:not-optimal" % k, inp, "objective %d of %r; %d mutually crossing stems of lengths %r have optimum %d"
+                             % (clique_score(lens, lvs), o[k][1], len(lens), lens, clique_optimum(lens)))
                 continue
             d = score.get((ci, k))
             if d is None:
